@@ -77,7 +77,7 @@ pub fn check(p: &Params, got: &[SliderEvent]) -> Result<(), String> {
                 if !close(*d, want) && (d - want).abs() > 1e-6 * len {
                     return Err(format!("span {s}: tick {k} at distance {d}, expected the multiple {want} of tick distance {td}"));
                 }
-                if *d >= len - min_end + 1e-6 * len.max(1.0) {
+                if *d >= len - min_end + 1e-6 * len {
                     return Err(format!("span {s}: tick at {d} lies within the minimum distance from the end (len {len}, min {min_end})"));
                 }
                 if *d > len * (1.0 + 1e-12) {
@@ -85,7 +85,7 @@ pub fn check(p: &Params, got: &[SliderEvent]) -> Result<(), String> {
                 }
             }
             let nxt = (sorted.len() + 1) as f64 * td;
-            if nxt < len - min_end - 1e-6 * len.max(1.0) && nxt <= len {
+            if nxt < len - min_end - 1e-6 * len && nxt <= len {
                 return Err(format!("span {s}: missing tick at {nxt} (have {} ticks; len {len}, tick distance {td}, min-from-end {min_end})", sorted.len()));
             }
         } else if !sorted.is_empty() {
